@@ -38,25 +38,27 @@ def build(args):
     reads = []
     strings = set()
     raised = "-"
+    # a descriptor does not depend on branching fractions: every third chain has modes with the default value 0 / 0.0
+    zb = {d["n"]: rng.choice([0, 0.0]) for d in c["decays"] if rng.random() < 0.5} if cid % 3 == 0 else None
     try:
         for top, sub in cio.PATTERNS:
             order = [d["n"] for d in c["decays"]]
             rng.shuffle(order)
-            dc = cio.build_chain(cz, c, order=order, rng=rng)
+            dc = cio.build_chain(cz, c, order=order, rng=rng, zero_bf=zb)
             with DescriptorFormat(top, sub):
                 s = dc.to_string()
                 # the same string whatever order daughters and sub-decays were given in
                 for _ in range(2):
                     o2 = order[:]
                     rng.shuffle(o2)
-                    strings.add((top, cio.build_chain(cz, c, order=o2, rng=rng).to_string()))
+                    strings.add((top, cio.build_chain(cz, c, order=o2, rng=rng, zero_bf=zb).to_string()))
                 strings.add((top, s))
             ps = parse_all(s, top, sub)
             tree = tree_json(abstract_tree(cz, ps[0])) if len(ps) == 1 else {"m": "?", "leaf": True, "kids": []}
             reads.append({"pat": top + " | " + sub, "string": s, "nparses": len(ps), "tree": tree})
         # the plain one-line descriptor (no format block active any more): round brackets, read back the same way
         top, sub = cio.PATTERNS[0]
-        s = cio.build_chain(cz, c, rng=rng).to_string()
+        s = cio.build_chain(cz, c, rng=rng, zero_bf=zb).to_string()
         ps = parse_all(s, top, sub)
         tree = tree_json(abstract_tree(cz, ps[0])) if len(ps) == 1 else {"m": "?", "leaf": True, "kids": []}
         reads.append({"pat": "default, after the format blocks", "string": s, "nparses": len(ps), "tree": tree})
